@@ -24,6 +24,7 @@ import (
 	"fmt"
 	"os"
 	"path/filepath"
+	"go/token"
 	"go/types"
 	"regexp"
 	"sort"
@@ -328,3 +329,134 @@ func (v *Verifier) typeInvWritersCheck(cfg PropConfig, sc StructuralCheck) []Str
 var selfFieldRe = regexp.MustCompile(`\bself\.([A-Za-z_][A-Za-z0-9_]*)`)
 
 var _ = strings.Contains
+
+// resliceAppend (structural kind `reslice_append`, C08 and assumption A2): `append(x[:k], ...)` writes into the backing
+// array of x, over elements x still shows to whoever else holds it. That is only harmless when x was made by this very
+// function (make, a composite literal, the result of an earlier append to such a slice). Every other site - a slice that
+// came in as a parameter, out of a field, a map, or from a call (e.g. the session assets' internal lists) - is reported
+// unless listed in `allowed` with the reason.
+func (v *Verifier) resliceAppend(cfg PropConfig, sc StructuralCheck) []StructResult {
+	var a struct {
+		Allowed []string `json:"allowed"` // "<func key>" of justified sites
+	}
+	json.Unmarshal(sc.Args, &a)
+	var fresh func(x ssa.Value, depth int) bool
+	fresh = func(x ssa.Value, depth int) bool {
+		if depth > 12 {
+			return false
+		}
+		switch y := x.(type) {
+		case *ssa.MakeSlice:
+			return true
+		case *ssa.Alloc:
+			return true
+		case *ssa.Const:
+			return y.Value == nil // nil slice
+		case *ssa.ChangeType:
+			return fresh(y.X, depth+1)
+		case *ssa.Slice:
+			return fresh(y.X, depth+1)
+		case *ssa.Phi:
+			for _, e := range y.Edges {
+				if e != x && !fresh(e, depth+1) {
+					return false
+				}
+			}
+			return true
+		case *ssa.Call:
+			if b, ok := y.Call.Value.(*ssa.Builtin); ok && b.Name() == "append" {
+				return fresh(y.Call.Args[0], depth+1)
+			}
+			return false
+		case *ssa.UnOp:
+			// load of a local cell: fresh if every store to the cell stores a fresh value
+			if al, ok := y.X.(*ssa.Alloc); ok && y.Op == token.MUL {
+				for _, r := range *al.Referrers() {
+					if st, ok := r.(*ssa.Store); ok && st.Addr == al {
+						if !fresh(st.Val, depth+1) {
+							return false
+						}
+					}
+				}
+				return true
+			}
+			return false
+		}
+		return false
+	}
+	// tainted: the value may be a re-slice x[:k] of a slice that is not this function's own (directly, through a phi, a local
+	// cell, or as the result of appending to such a re-slice - which stays inside the shared array until it outgrows it)
+	var tainted func(x ssa.Value, seenV map[ssa.Value]bool) bool
+	tainted = func(x ssa.Value, seenV map[ssa.Value]bool) bool {
+		if seenV[x] {
+			return false
+		}
+		seenV[x] = true
+		switch y := x.(type) {
+		case *ssa.ChangeType:
+			return tainted(y.X, seenV)
+		case *ssa.Slice:
+			if _, isSlice := y.X.Type().Underlying().(*types.Slice); !isSlice {
+				return false
+			}
+			if y.High != nil && !fresh(y.X, 0) {
+				return true
+			}
+			return tainted(y.X, seenV)
+		case *ssa.Phi:
+			for _, e := range y.Edges {
+				if tainted(e, seenV) {
+					return true
+				}
+			}
+		case *ssa.Call:
+			if b, ok := y.Call.Value.(*ssa.Builtin); ok && b.Name() == "append" {
+				return tainted(y.Call.Args[0], seenV)
+			}
+		case *ssa.UnOp:
+			if al, ok := y.X.(*ssa.Alloc); ok && y.Op == token.MUL {
+				for _, r := range *al.Referrers() {
+					if st, ok := r.(*ssa.Store); ok && st.Addr == al && tainted(st.Val, seenV) {
+						return true
+					}
+				}
+			}
+		}
+		return false
+	}
+	var bad, seen []string
+	n := 0
+	for _, fn := range v.moduleFunctions(false) {
+		for _, b := range fn.Blocks {
+			for _, in := range b.Instrs {
+				c, ok := in.(*ssa.Call)
+				if !ok {
+					continue
+				}
+				bi, ok := c.Call.Value.(*ssa.Builtin)
+				if !ok || bi.Name() != "append" || len(c.Call.Args) == 0 {
+					continue
+				}
+				if !tainted(c.Call.Args[0], map[ssa.Value]bool{}) {
+					continue
+				}
+				n++
+				site := fmt.Sprintf("%s (%s)", shortKey(fn), v.prog.Fset.Position(c.Pos()))
+				seen = append(seen, site)
+				if matchAny(shortKey(fn), a.Allowed) {
+					continue
+				}
+				bad = append(bad, site)
+			}
+		}
+	}
+	r := StructResult{Name: fmt.Sprintf("%s/structural/reslice_append[%s]", cfg.ID, sc.Name), Kind: "reslice_append",
+		Text: "no append onto a re-slice x[:k] of a slice this function did not make itself (the append would overwrite elements of a backing array that others still read: session assets, contact lists, definition lists)",
+		OK:   len(bad) == 0}
+	if len(bad) > 0 {
+		r.Detail = "appends into a shared backing array: " + strings.Join(bad, "; ")
+	} else {
+		r.Detail = fmt.Sprintf("%d append(x[:k], ...) sites, all on slices made locally or justified: %s", n, strings.Join(seen, "; "))
+	}
+	return []StructResult{r}
+}
